@@ -325,9 +325,11 @@ parse_pop(cache_page *vtp, uint8_t *raw, int packet)
 
 	case 3 ... 4:
 		if (designation & 1) {
-			int index = (packet - 1) * 26;
+			/* Twelve triplets, two pointers each, see
+			   resolve_obj_address(). */
+			int index = (packet - 1) * 24;
 
-			for (index += 2, i = 1; i < 13; index += 2, i++)
+			for (i = 1; i < 13; index += 2, i++)
 				if (triplet[i] >= 0) {
 					vtp->data.pop.pointer[index + 0] = triplet[i] & 0x1FF;
 					vtp->data.pop.pointer[index + 1] = triplet[i] >> 9;
